@@ -9,6 +9,26 @@ TB = ("Trusted: Lean 4.33 kernel; axioms propext/Classical.choice/Quot.sound onl
       "(generators, canonicalisation, oracle). The tie model<->code is regenerated facts + behavioural correspondence (a search).")
 
 CHECKS = {
+ "C15": dict(
+  text="Lean theorems, unbounded in values/lengths: (1) SQL index keys (model of EncodeRawValueAsKey/DecodeValueFromKey, byte layout exact): "
+       "key_roundtrip (decode(encode v ++ any tail) = v, consumed = key length, every type incl. NULL), key_width_fixed, key_injective, "
+       "key_order (Compare(a,b) = bytes.Compare(key a, key b), all three outcomes, every type, NULLs first) with corollaries per type, "
+       "float_total_order (no exclusions: keys realise the IEEE total order), null_first, composite_lex (concatenated column keys order like rows; "
+       "per-column keys are prefix-free) and composite_roundtrip; the exact excluded points are proved as witnesses of the negation: "
+       "negzero_encodes_differently, nan_order_violated, nan_compare_irreflexive, timestamp_order_violated_outside_nano_range. "
+       "(2) row values (EncodeRawValue/decodeValue): value_roundtrip (timestamps to microseconds), witness nullable_empty_varchar/blob_decodes_null. "
+       "(3) store: txmd_roundtrip, kvmd_roundtrip, txheader_roundtrip (v0/v1, any metadata), witness txmd_readable_extra_makes_bytes_panic. "
+       "Tie: the real functions are called on boundary-biased values, pairs, rows and mutated encodings; every call is replayed on the Lean driver "
+       "and compared byte for byte (encodings, decoded values, Compare results, error classes, panics); an independent oracle checks "
+       "decode(encode v) = v, Go Compare = bytes.Compare of the Go keys, equal values => equal keys, row order = composite key order, "
+       "plus two end-to-end SQL probes.",
+  note=TB + " Modelled rather than verified: Go values are represented as byte lists / Int / IEEE bit patterns / (sec,nsec) instants; float64 "
+       "comparison of non-NaN values is taken to be signed-magnitude comparison of the bit patterns (confirmed on every generated pair); "
+       "mayApplyImplicitConversion is the identity on the modelled domain (raw Go type = column type), JSON values, documents, protocol "
+       "conversions and ExportTx framing are not modelled; int overflow of maxLen >= 2^62 in DecodeValueFromKey is outside the model; "
+       "sql.MaxKeyLen is the extracted default (1024). Known findings (11 signatures) are genuine defects of /repo, see known_findings.json.",
+  technique="Lean 4 proof (lexicographic-order lemmas, bit-level arithmetic by omega, list induction) + differential correspondence against embedded/sql and embedded/store codecs",
+  design="7/C15"),
  "C01": dict(
   text="Lean theorems about models that mirror store/verification.go branch by branch, over an arbitrary hash (conclusions Good ∨ explicit collision of H): "
        "linear proofs are exact; the accumulated hash commits to the whole past; an accepted DualProof binds the target's tree leaf at the trusted position to the "
